@@ -89,3 +89,23 @@ CORPUS += [
     M("authenticate-reconnect-guard-wrong", L, "        if (not self._alive or not isinstance(self._protocol, _LanProtocolV3)):", "        if (not self._alive or isinstance(self._protocol, _LanProtocolV3)):"),
     M("authenticate-never-reconnects", L, "        if (not self._alive or not isinstance(self._protocol, _LanProtocolV3)):", "        if not isinstance(self._protocol, _LanProtocolV3):"),
 ]
+# round 11: the credentials are cached in the atomic section in which the handshake succeeded
+CORPUS += [
+    M("credentials-cached-after-settle-sleep", L, """        # Update stored token and key if successful
+        self._token = token
+        self._key = key
+
+        # Sleep briefly before requesting more data
+        await asyncio.sleep(1)
+""", """        # Sleep briefly before requesting more data
+        await asyncio.sleep(1)
+
+        # Update stored token and key if successful
+        self._token = token
+        self._key = key
+"""),
+    M("n-credentials-stored-in-other-order", L, "        self._token = token\n        self._key = key\n", "        self._key = key\n        self._token = token\n", "S"),
+    M("n-abort-helper-in-send-loop", L, "                # TODO could add a fatal flag to exception to trigger disconnect\n                self._disconnect()\n                raise e",
+      "                self._abort(\"protocol error\")\n                raise e", "S",
+      also=[(L, "    def _disconnect(self) -> None:\n        if self._protocol:", "    def _abort(self, reason: str) -> None:\n        _LOGGER.debug(\"Aborting: %s\", reason)\n        self._disconnect()\n\n    def _disconnect(self) -> None:\n        if self._protocol:")]),
+]
